@@ -151,6 +151,10 @@ def run(pid, tier, seed):
     pd = programs.ProgramDir("mtv_c11_")
     root, mods = setup_fixture(pd, "fx%d" % (seed % 1000))
     try:
+        # first of all (nothing has been stubbed in this process yet): source annotations kept next to traced types that are ==
+        # to them (PEP 604 / 585 spellings need no typing import, the traced spelling does): every name used is provided
+        from .. import keptmix
+        keptmix.run(chk, pd, seed, "names-provided-kept-and-traced")
         gen = Gen(tbl, chk.rng, mods)
         target = mods["target"]
         own = {"Own": target.Own, "K": target.K}
